@@ -253,6 +253,31 @@ theorem accepted_runs (op : Op) (a : Args) (pool : Pool) (h : precond op a pool 
     step op a pool = (.ok (), apply op a pool) := by
   simp [step, h]
 
+/-- System overloads (`add_constraints(cs)`, `add_generators(gs)`, `add_congruences(cgs)`, … of every
+domain): one ill-formed element **at any position** makes the model reject the call and leave the
+receiver unchanged — whatever the elements before it would have done. -/
+theorem rejected_unchanged_system {σ : Type} (applyAll : List ElemKind → σ → σ) (d : DomKind) (op : SysOp)
+    (before after : List ElemKind) (e : ElemKind) (r : σ) (h : elemBad d op e = true) :
+    stepSystem applyAll d op (before ++ e :: after) r = (.error .invalidArgument, r) := by
+  have : precondSystem d op (before ++ e :: after) = .error .invalidArgument := by
+    simp [precondSystem, bad, h]
+  simp [stepSystem, this]
+
+/-- …and a system without ill-formed element is applied. -/
+theorem accepted_runs_system {σ : Type} (applyAll : List ElemKind → σ → σ) (d : DomKind) (op : SysOp)
+    (es : List ElemKind) (r : σ) (h : ∀ e ∈ es, elemBad d op e = false) :
+    stepSystem applyAll d op es r = (.ok (), applyAll es r) := by
+  have : precondSystem d op es = .ok () := by
+    have hany : es.any (elemBad d op) = false := by
+      rw [List.any_eq_false]; intro e he; simp [h e he]
+    simp [precondSystem, bad, hany]
+  simp [stepSystem, this]
+
+example : precondSystem .polyC .addCongruences [.ok, .ok, .proper] = .error .invalidArgument := rfl
+example : precondSystem .polyC .addCongruences [.proper, .ok, .ok] = .error .invalidArgument := rfl
+example : precondSystem .polyNNC .addConstraints [.ok, .strict, .ok] = .ok () := rfl
+example : precondSystem .grid .addConstraints [.ok, .inequality] = .error .invalidArgument := rfl
+
 example : step .addConstraint { recv := 0, adim := 4 } [⟨.c, 3, false⟩] = (.error .invalidArgument, [⟨.c, 3, false⟩]) := rfl
 example : step .addConstraint { recv := 0, adim := 3, strict := true } [⟨.c, 3, false⟩] = (.error .invalidArgument, [⟨.c, 3, false⟩]) := rfl
 example : step .addSpaceDims { recv := 0, adim := 2 } [⟨.nnc, 3, false⟩] = (.ok (), [⟨.nnc, 5, false⟩]) := rfl
